@@ -182,10 +182,15 @@ def check_model (spec):
         if o ['ff_pwr'] is not None:
             kw ['pwr'] = o ['ff_pwr']
     common.guarded (lambda: m.compute_far_field (zen, azi, **kw), 'compute_far_field')
+    # the report is written twice from the same results; the second copy is the one that is judged token by token
+    text0 = common.guarded (lambda: m.as_mininec (opts), 'as_mininec')
     text = common.guarded (lambda: m.as_mininec (opts), 'as_mininec')
     rep  = report.parse (text)
     J    = Judge ()
     viol = J.viol
+    if text0 != text:
+        la, lb = text0.split ('\n'), text.split ('\n')
+        viol.append (dict (monitor = 'second-copy', key = 'report-second-copy', msg = 'the report written a second time from the same results differs: %r' % ([(x, y) for x, y in zip (la, lb) if x != y] [:2],)))
     def bad (key, msg):
         viol.append (dict (monitor = 'structure', key = key, msg = msg))
     if rep ['leftovers']:
